@@ -15,7 +15,7 @@ Additional conventions of this unit:
                  file is the `usize` instance: `AigerTokenExt.asUsize <$> uint Aiger.usizeTy`.
   reader.buf()   the view has no buffer value: `buf()[k]` -> `AigerTokenExt.bufAt k`, `buf()[..n]` -> `PM.bufPrefix n`.
   skipped functions that are called from translated ones are replaced by their hand models
-                 (`unexpected` -> `Aiger.unexpected`, `binary_uint` -> `Aiger.binaryUint`, `exceeds_count` ->
+                 (`unexpected` -> `Aiger.unexpected`, `exceeds_count` ->
                  `Aiger.errorAtMark`); these stay tied by the correspondence runs only.
 """
 from unitbase import *
@@ -41,19 +41,22 @@ class AigerTokenUnit(PMUnit):
     imports = ["Flussab.Model.AigerTokenExt"]
     skip = {
         "unexpected": "builds a message from up to 60 bytes (Vec, format!, from_utf8_lossy); modelled by `Aiger.unexpected`",
-        "binary_uint": "`let reader = input.reader()` alias, `for .. in buf()[..n].iter().rev()`, wrapping `usize` shifts and `u8 & ..`: outside the emitter's subset; modelled by `Aiger.binaryUint`",
         "exceeds_count": "branches on the text of the numeral (`value.starts_with('0')`) to choose a message; strings are not modelled; both branches are `Aiger.errorAtMark`",
         "remaining_line_content": "std UTF-8 validation (`from_utf8`, `Utf8Error::valid_up_to`), `from_utf8_unchecked`; modelled by `Aiger.remainingLineContent`",
         "remaining_file_content": "std UTF-8 validation, iterator adaptors with closures (`rev().position`, `filter().count()`), `buf_len()`; modelled by `Aiger.remainingFileContent`",
     }
     rename = {"fixed": "fixedTok", "lit": "litTok"}
+    int_literal_default = "usize"
+    wrapping_usize_shl = True
+    fuel = {"binary_uint": "11"}
+    casts = {("u8", "usize"): "({}).toNat"}
+    consts = {"usize::BITS": ("64", "usize")}     # 64-bit target (DESIGN §3.1)
     # functions returning `ParseError`: `PM α` for every α
     extra_binders = {"not_assigning": "{α : Type}", "invalid_initialization": "{α : Type}"}
     # hand models of skipped functions: rust name -> (Lean term, result type; "!" = never returns)
     modelled = {
         "unexpected": ("Aiger.unexpected", "!"),
         "exceeds_count": ("Aiger.errorAtMark", "!"),
-        "binary_uint": ("Aiger.binaryUint", "usize"),
     }
 
     def __init__(self):
